@@ -176,7 +176,7 @@ class Abs64Relocation(Relocation):
     name = "abs64"
 
     def calc(self, sym_value, reloc_value):
-        return wrap_negative(sym_value, 64)
+        return wrap_negative(sym_value, 64, allow_unsigned=True)
 
 
 # Actual instructions:
